@@ -113,10 +113,16 @@ def hasTooLong : List SEv → Bool
   | .tooLong :: _ => true
   | _ :: r => hasTooLong r
 
+/-- Entries the coverage requirements do not apply to: markers (nothing to dispatch) and updates
+that cover no position (`count = 0`, e.g. updateReadChannelInbox): a lost push of such an update is
+not returned by any later difference, so no client can guarantee its delivery.  (When a difference
+does carry one, it is dispatched like everything else the difference carries.) -/
+def exempt (mk : Nat → Bool) (e : Entry) : Bool := mk e.id || decide (e.count = 0)
+
 /-- `covered log mk lo v D`: every log entry above the initial position `lo` and at or below `v`
-that is not a marker has its id in `D`. -/
+that is not exempt has its id in `D`. -/
 def covered (log : List Entry) (mk : Nat → Bool) (lo v : Int) (D : List Nat) : Bool :=
-  log.all fun e => decide (e.pos ≤ lo) || decide (v < e.pos) || mk e.id || D.contains e.id
+  log.all fun e => decide (e.pos ≤ lo) || decide (v < e.pos) || exempt mk e || D.contains e.id
 
 /-- C03, prefix form: at every store the persisted value covers only entries that were already
 dispatched (`D` = ids dispatched so far), unless too-long was reported before (`tl`). -/
@@ -129,13 +135,13 @@ def safe (log : List Entry) (mk : Nat → Bool) (lo : Int) (D : List Nat) (tl : 
 /-- C02 for one sequence: every entry above `lo` has been dispatched, unless too-long was
 reported. -/
 def complete' (log : List Entry) (mk : Nat → Bool) (lo : Int) (evs : List SEv) : Bool :=
-  hasTooLong evs || log.all fun e => decide (e.pos ≤ lo) || mk e.id || (dispatchedIds evs).contains e.id
+  hasTooLong evs || log.all fun e => decide (e.pos ≤ lo) || exempt mk e || (dispatchedIds evs).contains e.id
 
 /-- The entries of one sequence tile the positions above `c`: each starts where the previous
-one ended and covers at least one position. -/
+one ended; it covers zero or more positions and sits at a positive position. -/
 def tiled (c : Int) : List Entry → Bool
   | [] => true
-  | e :: es => decide (e.pos - e.count = c) && decide (1 ≤ e.count) && tiled e.pos es
+  | e :: es => decide (e.pos - e.count = c) && decide (0 ≤ e.count) && decide (0 < e.pos) && tiled e.pos es
 
 /-- The three shapes of a `getDifference` branch, as seen by one sequence. -/
 def diffShape : List SCall := [.dispatch, .store, .setBox]
@@ -147,7 +153,7 @@ def cbOnlyShape : List SCall := [.cb]
 /-- Well-formedness of an op in box state `b`: a push is a log entry, or a count-0 marker at a
 positive position (an affected result that covers no position); a difference branch has one of the
 three shapes, and (honest server, complete routing) a difference that sets position `x` carries in
-`direct` every non-marker log entry in `(b.state, x]`; an empty one has nothing to carry. -/
+`direct` every non-exempt log entry in `(b.state, x]`; an empty one has nothing to carry. -/
 def wfOp (log : List Entry) (mk : Nat → Bool) (b : Box) : SOp → Bool
   | .push e => decide (e ∈ log) || (decide (e.count = 0) && decide (0 < e.pos) && mk e.id)
   | .clear => true
@@ -155,9 +161,9 @@ def wfOp (log : List Entry) (mk : Nat → Bool) (b : Box) : SOp → Bool
   | .seq calls x direct =>
     direct.all (fun e => decide (e ∈ log)) &&
     ((decide (calls = diffShape) &&
-        log.all fun e => !(decide (b.state < e.pos) && decide (e.pos ≤ x)) || mk e.id || decide (e ∈ direct))
+        log.all fun e => !(decide (b.state < e.pos) && decide (e.pos ≤ x)) || exempt mk e || decide (e ∈ direct))
     || (decide (calls = emptyShape) &&
-        log.all fun e => !(decide (b.state < e.pos) && decide (e.pos ≤ x)) || mk e.id)
+        log.all fun e => !(decide (b.state < e.pos) && decide (e.pos ≤ x)) || exempt mk e)
     || decide (calls = tooLongShape) || decide (calls = cbOnlyShape))
 
 def wfRun (c : ACfg) (log : List Entry) (b : Box) : List SOp → Bool
